@@ -29,7 +29,7 @@ def main():
     with atheris.instrument_imports(include=["fast_ticc"]):
         import fast_ticc  # noqa: F401
         from fast_ticc import cluster_label_assignment, cluster_maintenance  # noqa: F401
-    from harness import core
+    from harness import core, ambient
     from harness.core import Tally, Violation, Discard, enc
     from harness.main import load_property, find_sub
 
@@ -70,7 +70,7 @@ def main():
         state["n"] += 1
         tally.begin(case)
         try:
-            sc.execute(case, tally)
+            ambient.execute(sc, case, tally)
         except Discard:
             pass
         except Violation as v:
